@@ -51,6 +51,8 @@ class ScriptedDefuzzifier(fl.Defuzzifier):
             raise e
         vals = self.next_values
         assert vals is not None
+        if len(vals) == 0:
+            return np.array([], dtype=np.float64)
         if self.buffer is not None:
             # legal for a Defuzzifier: write the result into a preallocated buffer and return (a view of) it
             if len(vals) > len(self.buffer):
@@ -68,6 +70,8 @@ class ScriptedDefuzzifier(fl.Defuzzifier):
                 return int(vals[0])
             if self.next_as == "pybool":
                 return bool(vals[0])
+        if len(vals) == 0:
+            return np.array([], dtype=np.float64)
         if self.next_as in NARROW:  # a defuzzifier that answers in a narrower type (the values are exact in it)
             return np.array(vals[0] if len(vals) == 1 else vals, dtype=NARROW[self.next_as])
         if len(vals) == 1:
@@ -111,7 +115,7 @@ class Model:
     def call(self, vs: list[float], st=None) -> None:
         if not self.enabled:
             return
-        p = self.cur[-1]
+        p = self.cur[-1] if self.cur else nan  # (after an empty batch the variable holds no value at all)
         last = p
         out = []
         for i, d in enumerate(vs):
@@ -245,6 +249,8 @@ class C12(Sim):
             r = rng.random()
             if r < 0.55:
                 k = rng.choice([1, 1, 1, 2, 3, 4, maxrows])
+                if rng.random() < 0.03:
+                    k = 0  # an empty batch: the defuzzifier answers with an empty array (a filter that selected no row)
                 kind = rng.choice(["array", "array", "npscalar", "pyfloat", "array1"])
                 if rng.random() < 0.12:
                     kind = rng.choice(["f32", "f32", "intarr", "pyint", "pybool"])
@@ -379,7 +385,7 @@ class C12(Sim):
                     st.hit("probes.disabled_variable_untouched")
                     if stub.calls != calls0:  # not an alarm by itself: "left untouched" is judged on the variable's state below
                         st.hit("outcomes.defuzzifier_called_for_disabled_variable")
-                if last_was_nan_then_clear and vs[0] != vs[0] and m.lock_previous and m.enabled:
+                if last_was_nan_then_clear and vs and vs[0] != vs[0] and m.lock_previous and m.enabled:
                     st.hit("probes.clear_between_nan_and_predecessor")
                 narrow = stub.buffer is None and stub.next_as == "f32" and m.enabled
                 if stub.buffer is None and stub.next_as in NARROW or stub.next_as in ("pyint", "pybool"):
@@ -425,7 +431,7 @@ class C12(Sim):
                 sig.append("F")
             elif kind == "clear":
                 ov.clear()
-                if m.cur[-1] == m.cur[-1]:
+                if m.cur and m.cur[-1] == m.cur[-1]:
                     last_was_nan_then_clear = True
                 m.clear()
                 sig.append("C")
